@@ -188,6 +188,13 @@ func TestC14(t *testing.T) {
 		unlockedTime := T0.Add(10*365*24*time.Hour + 24*time.Hour)
 		lockedSourceUnlocked = false
 		defer func() { lockedSourceUnlocked = false }()
+		// governance may remove a named share right after the blocks with faults, while whole coins are still
+		// booked for its destination: they are owed to it all the same
+		dropShareAfter, dropShareIdx, sharesDropped = -1, rapid.IntRange(0, 5).Draw(t, "dropShareIdx"), 0
+		if rapid.IntRange(0, 2).Draw(t, "dropShare") == 0 {
+			dropShareAfter = faultBlocks - 1
+		}
+		defer func() { dropShareAfter = -1 }()
 		for b := 0; b < blocks; b++ {
 			curBlock = b
 			if b == unlockAt {
@@ -205,6 +212,20 @@ func TestC14(t *testing.T) {
 			r.Model.Block(modelFault, r.ImplLeft())
 			r.CheckBooks(t)
 			r.CheckModel(t)
+			if b == dropShareAfter {
+				for i := range cfg.Subs {
+					if n := len(cfg.Subs[i].Shares); n > 0 {
+						nc := DCfg{Subs: append([]DSub{}, cfg.Subs...)}
+						k := dropShareIdx % n
+						nc.Subs[i].Shares = append(append([]DShare{}, cfg.Subs[i].Shares[:k]...), cfg.Subs[i].Shares[k+1:]...)
+						if res := RunMsg(r.W.App, r.Ctx, &distrtypes.MsgUpdateParams{Authority: GovAuthority(), SubDistributors: nc.Build().SubDistributors}); res.OK() {
+							r.Model.Cfg = nc
+							sharesDropped++
+						}
+						break
+					}
+				}
+			}
 		}
 		kinds := map[string]bool{}
 		for op, n := range r.Bank.Hits {
@@ -252,13 +273,18 @@ func TestC14(t *testing.T) {
 		if lockedSrc && lockedDst {
 			cl["locked_src_and_dst_no_twin"] = true
 		}
+		if sharesDropped > 0 {
+			cl["named_share_removed_while_coins_are_owed"] = true
+		}
 		if lockedSrc && unlockAt >= 0 {
 			cl["locked_source_unlocks_in_the_suffix"] = true
 		}
 		if len(occupiedModuleAddrs) > 0 {
 			cl["module_address_occupied_by_a_base_account_no_twin"] = true
 		}
-		if acyclic && !shared && !(lockedSrc && lockedDst) && len(occupiedModuleAddrs) == 0 {
+		// (d) the configuration did not change: after a change the routing of coins that arrive late differs from
+		// the routing of coins that arrived on time by design; the per-block model comparison above covers those cases
+		if acyclic && !shared && !(lockedSrc && lockedDst) && len(occupiedModuleAddrs) == 0 && sharesDropped == 0 {
 			cl["twin_compared"] = true
 			lockedSourceUnlocked = false
 			_, twin := runDistrCase(t, cfg, inflows, blocks, func(r *DistrRun) {
